@@ -184,10 +184,18 @@ func indTasks(r *core.Rand) []indTask {
 	// an EncryptedLeaseSet under an ECDSA key: the library cannot build that verifier, so its Verify
 	// takes the failure path (deterministically) - next to sets that do verify
 	{
-		sc := signedELS(r, []int{1, 2}[r.Pick(2)], r.Chance(1, 2), 7)
+		// (the signature bytes are drawn from the stream, not made by the reference's ECDSA signer: the
+		// standard library consumes a varying amount of its entropy source, which would make the twin
+		// task list drift from the solo one - see DESIGN 7.1)
+		em, _ := gen.EncryptedLeaseSet(r)
+		st := []int{1, 2}[r.Pick(2)]
+		pl, _ := rm.SigPubLen(st)
+		sl, _ := rm.SigLen(st)
+		em.SigType, em.BlindedKey, em.Offline, em.Flags, em.Sig = uint16(st), r.Bytes(pl), nil, em.Flags&2, r.Bytes(sl)
+		enc := em.Encode()
 		p := lib.ByNameCached("encrypted_leaseset.ReadEncryptedLeaseSet")
 		add("verify/encleaseset-ecdsa", func() string {
-			o := p.Fn(append([]byte(nil), sc.bytes...))
+			o := p.Fn(append([]byte(nil), enc...))
 			return dig(o.Accepted, o.Ser, obsDigest(o.Val))
 		})
 	}
